@@ -1,0 +1,154 @@
+//! Verification hooks (cargo feature `verif`, off by default).
+//!
+//! Thin stand-ins for the shared-state primitives used by `merge!`, `combine!` and `take`. Each
+//! stand-in calls an optional, process-wide hook *before* delegating to the real primitive, which
+//! lets a test harness own the thread schedule at the granularity of shared-state accesses. With
+//! no hook installed the stand-ins behave exactly like the types they wrap.
+
+use std::sync::{
+    atomic::{self, Ordering},
+    Arc, RwLock,
+};
+
+/// Signature of the scheduling hook: called with a static label before every shared-state access.
+pub type Hook = Arc<dyn Fn(&'static str) + Send + Sync>;
+
+static ENABLED: atomic::AtomicBool = atomic::AtomicBool::new(false);
+static HOOK: RwLock<Option<Hook>> = RwLock::new(None);
+
+/// Installs (or, with `None`, removes) the process-wide hook.
+pub fn set_hook(hook: Option<Hook>) {
+    let mut slot = HOOK.write().unwrap_or_else(|e| e.into_inner());
+    ENABLED.store(hook.is_some(), Ordering::SeqCst);
+    *slot = hook;
+}
+
+#[inline]
+fn yield_point(label: &'static str) {
+    if ENABLED.load(Ordering::Relaxed) {
+        let hook = HOOK.read().unwrap_or_else(|e| e.into_inner()).clone();
+        if let Some(hook) = hook {
+            hook(label);
+        }
+    }
+}
+
+#[derive(Debug, Default)]
+pub struct AtomicBool(atomic::AtomicBool);
+
+impl AtomicBool {
+    pub fn new(v: bool) -> Self {
+        Self(atomic::AtomicBool::new(v))
+    }
+
+    pub fn load(&self, order: Ordering) -> bool {
+        yield_point("AtomicBool::load");
+        self.0.load(order)
+    }
+
+    pub fn store(&self, v: bool, order: Ordering) {
+        yield_point("AtomicBool::store");
+        self.0.store(v, order)
+    }
+}
+
+#[derive(Debug, Default)]
+pub struct AtomicUsize(atomic::AtomicUsize);
+
+impl AtomicUsize {
+    pub fn new(v: usize) -> Self {
+        Self(atomic::AtomicUsize::new(v))
+    }
+
+    pub fn load(&self, order: Ordering) -> usize {
+        yield_point("AtomicUsize::load");
+        self.0.load(order)
+    }
+
+    pub fn store(&self, v: usize, order: Ordering) {
+        yield_point("AtomicUsize::store");
+        self.0.store(v, order)
+    }
+
+    pub fn fetch_add(&self, v: usize, order: Ordering) -> usize {
+        yield_point("AtomicUsize::fetch_add");
+        self.0.fetch_add(v, order)
+    }
+
+    pub fn fetch_sub(&self, v: usize, order: Ordering) -> usize {
+        yield_point("AtomicUsize::fetch_sub");
+        self.0.fetch_sub(v, order)
+    }
+
+    pub fn fetch_update<F>(
+        &self,
+        set_order: Ordering,
+        fetch_order: Ordering,
+        f: F,
+    ) -> Result<usize, usize>
+    where
+        F: FnMut(usize) -> Option<usize>,
+    {
+        yield_point("AtomicUsize::fetch_update");
+        self.0.fetch_update(set_order, fetch_order, f)
+    }
+}
+
+pub struct ArcSwap<T>(arc_swap::ArcSwap<T>);
+
+impl<T> ArcSwap<T> {
+    pub fn from_pointee(v: T) -> Self {
+        Self(arc_swap::ArcSwap::from_pointee(v))
+    }
+
+    pub fn load(&self) -> arc_swap::Guard<Arc<T>> {
+        yield_point("ArcSwap::load");
+        self.0.load()
+    }
+
+    pub fn store(&self, v: Arc<T>) {
+        yield_point("ArcSwap::store");
+        self.0.store(v)
+    }
+
+    pub fn rcu<R, F>(&self, f: F) -> Arc<T>
+    where
+        F: FnMut(&Arc<T>) -> R,
+        R: Into<Arc<T>>,
+    {
+        yield_point("ArcSwap::rcu");
+        self.0.rcu(f)
+    }
+}
+
+impl<T: Default> Default for ArcSwap<T> {
+    fn default() -> Self {
+        Self(Default::default())
+    }
+}
+
+pub struct ArcSwapOption<T>(arc_swap::ArcSwapOption<T>);
+
+impl<T> ArcSwapOption<T> {
+    pub fn load(&self) -> arc_swap::Guard<Option<Arc<T>>> {
+        yield_point("ArcSwapOption::load");
+        self.0.load()
+    }
+
+    pub fn store(&self, v: Option<Arc<T>>) {
+        yield_point("ArcSwapOption::store");
+        self.0.store(v)
+    }
+}
+
+impl<T> From<Option<Arc<T>>> for ArcSwapOption<T> {
+    fn from(v: Option<Arc<T>>) -> Self {
+        Self(arc_swap::ArcSwapOption::from(v))
+    }
+}
+
+impl<T> Default for ArcSwapOption<T> {
+    fn default() -> Self {
+        Self(Default::default())
+    }
+}
